@@ -13,7 +13,7 @@ EXTENDS IPFSConn, Json, IOUtils
 
 Recs == ndJsonDeserialize(IOEnv.TRACE_FILE)
 
-InOf(r) == [op |-> r.in.op, mode |-> r.in.mode, upd |-> r.in.upd, norig |-> r.in.norig, ohang |-> r.in.ohang,
+InOf(r) == [op |-> r.in.op, mode |-> r.in.mode, upd |-> r.in.upd, norig |-> r.in.norig, ohang |-> r.in.ohang, cancel |-> r.in.cancel,
             prior |-> [c1 |-> r.in.prior.c1, c2 |-> r.in.prior.c2], intf |-> r.in.intf]
 ReqOf(q) == [ep |-> q.ep, cid |-> q.cid, typ |-> q.typ, rec |-> q.rec, from |-> q.from, unpin |-> q.unpin,
              beh |-> q.beh, eff |-> q.eff, ans |-> q.ans]
@@ -22,7 +22,7 @@ ObsOf(r) == [in  |-> InOf(r),
              out |-> [res |-> r.out.res, status |-> r.out.status,
                       pins |-> [c1 |-> r.out.pins.c1, c2 |-> r.out.pins.c2],
                       reqs |-> [j \in DOMAIN r.out.reqs |-> ReqOf(r.out.reqs[j])],
-                      swarm |-> Range(r.out.swarm)]]
+                      swarm |-> Range(r.out.swarm), abandoned |-> r.out.abandoned]]
 
 BadIdx == {i \in 1..Len(Recs) : Broken(ObsOf(Recs[i])) # {}}
 ASSUME ndJsonSerialize(IOEnv.VERDICT_FILE,
